@@ -659,6 +659,19 @@ def run_check(prop, tier, seed):
     stats, problems = ({"components": {}}, [])
     if ok:
         stats, problems = explore(prop, tier, seed, spec["components"], t0)
+        if tier == "thorough":
+            # further independent seeds (fresh random scripts and schedules); stop at the first problem
+            for extra_seed in (seed + 1000, seed + 2000):
+                if problems or time.time() - t0 > 2400:
+                    break
+                s2, p2 = explore(prop, tier, extra_seed, spec["components"], t0)
+                problems += p2
+                for cname, cs2 in s2["components"].items():
+                    cs = stats["components"].setdefault(cname, cs2)
+                    if cs is not cs2:
+                        for k in ("runs", "events", "accepted", "rejected", "distinct_scripts", "distinct_traces", "deadlocks", "steplimits"):
+                            cs[k] = cs.get(k, 0) + cs2.get(k, 0)
+            stats["seeds"] = [seed, seed + 1000, seed + 2000]
     # 5. classify
     kf = known_findings()
     known_hits = []
@@ -741,6 +754,7 @@ def run_check(prop, tier, seed):
             components=stats["components"],
             samples=[dict(component=k, script=v["sample"][0], trace_head=v["sample"][1]) for k, v in stats["components"].items() if v.get("sample")]
             or [dict(theorem=n) for n in names[:3]],
+            seeds=stats.get("seeds", [seed]),
             model_stage=spec.get("stage", "A"),
             partial_clauses=spec.get("partial", []),
         ),
